@@ -69,40 +69,6 @@ var newUClientConnection = func(
 		connIDGenerator,
 	)
 	s.ctx, s.ctxCancel = context.WithCancelCause(ctx)
-	s.preSetup()
-	// [UQUIC] A QUICSpec is authoritative over the Initial CRYPTO framing (via
-	// InitialPacketSpec.FrameBuilder), and uPacketPacker re-frames every Initial
-	// datagram. The upstream anti-DPI ClientHello scrambler would cut the stream at
-	// the SNI/ECH, producing non-contiguous CRYPTO frames that the re-framing path
-	// cannot reassemble (breaks multi-datagram Initials, e.g. Chrome 146). Disable it.
-	s.initialStream.DisableScrambling()
-	s.sentPacketHandler = ackhandler.NewUAckHandler(
-		initialPacketNumber,
-		protocol.ByteCount(s.config.InitialPacketSize),
-		s.rttStats,
-		&s.connStats,
-		false, // has no effect
-		s.conn.capabilities().ECN,
-		s.receivedPacketHandler.IgnorePacketsBelow,
-		s.perspective,
-		s.qlogger,
-		s.logger,
-	)
-	s.currentMTUEstimate.Store(uint32(estimateMaxPayloadSize(protocol.ByteCount(s.config.InitialPacketSize))))
-	// [UQUIC] Set Initial packet number encoding length.
-	// Per-packet list takes precedence over single-value override.
-	if len(uSpec.InitialPacketSpec.InitPacketNumberLengths) > 0 {
-		ackhandler.SetInitialPacketNumberLengths(
-			s.sentPacketHandler,
-			protocol.PacketNumber(uSpec.InitialPacketSpec.InitPacketNumber),
-			uSpec.InitialPacketSpec.InitPacketNumberLengths,
-		)
-	} else if uSpec.InitialPacketSpec.InitPacketNumberLength != 0 {
-		ackhandler.SetInitialPacketNumberLength(s.sentPacketHandler, uSpec.InitialPacketSpec.InitPacketNumberLength)
-	}
-
-	oneRTTStream := newCryptoStream()
-
 	var params *wire.TransportParameters
 
 	// [UQUIC] Work on a per-connection copy of the ClientHelloSpec: uTLS's ApplyPreset
@@ -178,6 +144,48 @@ var newUClientConnection = func(
 			params.MaxDatagramFrameSize = protocol.InvalidByteCount
 		}
 	}
+	// [UQUIC] The transport parameters on the wire are the spec's, so the connection has to
+	// enforce those, not the values of the Config: the peer is entitled to use every limit
+	// we advertised, and it cannot use more than we advertised. (Enforcing the Config's
+	// values closed conformant connections with FLOW_CONTROL_ERROR, STREAM_LIMIT_ERROR or
+	// FRAME_ENCODING_ERROR, or stalled them when the spec advertised less than the Config.)
+	if uSpec.ClientHelloSpec != nil {
+		s.applyAdvertisedTransportParameters(params)
+	}
+	s.preSetup()
+	// [UQUIC] A QUICSpec is authoritative over the Initial CRYPTO framing (via
+	// InitialPacketSpec.FrameBuilder), and uPacketPacker re-frames every Initial
+	// datagram. The upstream anti-DPI ClientHello scrambler would cut the stream at
+	// the SNI/ECH, producing non-contiguous CRYPTO frames that the re-framing path
+	// cannot reassemble (breaks multi-datagram Initials, e.g. Chrome 146). Disable it.
+	s.initialStream.DisableScrambling()
+	s.sentPacketHandler = ackhandler.NewUAckHandler(
+		initialPacketNumber,
+		protocol.ByteCount(s.config.InitialPacketSize),
+		s.rttStats,
+		&s.connStats,
+		false, // has no effect
+		s.conn.capabilities().ECN,
+		s.receivedPacketHandler.IgnorePacketsBelow,
+		s.perspective,
+		s.qlogger,
+		s.logger,
+	)
+	s.currentMTUEstimate.Store(uint32(estimateMaxPayloadSize(protocol.ByteCount(s.config.InitialPacketSize))))
+	// [UQUIC] Set Initial packet number encoding length.
+	// Per-packet list takes precedence over single-value override.
+	if len(uSpec.InitialPacketSpec.InitPacketNumberLengths) > 0 {
+		ackhandler.SetInitialPacketNumberLengths(
+			s.sentPacketHandler,
+			protocol.PacketNumber(uSpec.InitialPacketSpec.InitPacketNumber),
+			uSpec.InitialPacketSpec.InitPacketNumberLengths,
+		)
+	} else if uSpec.InitialPacketSpec.InitPacketNumberLength != 0 {
+		ackhandler.SetInitialPacketNumberLength(s.sentPacketHandler, uSpec.InitialPacketSpec.InitPacketNumberLength)
+	}
+
+	oneRTTStream := newCryptoStream()
+
 	if s.qlogger != nil {
 		s.qlogTransportParameters(params, protocol.PerspectiveClient, false)
 	}
@@ -234,4 +242,22 @@ func cloneClientHelloSpecForDial(chs *tls.ClientHelloSpec) *tls.ClientHelloSpec 
 		}
 	}
 	return &c
+}
+
+// applyAdvertisedTransportParameters makes the connection enforce the transport parameters a
+// spec-driven client advertised (a parameter that is absent from the spec is advertised
+// with its RFC 9000 default). It must be called before preSetup. [UQUIC]
+func (c *Conn) applyAdvertisedTransportParameters(params *wire.TransportParameters) {
+	conf := *c.config // don't modify the caller's Config
+	c.config = &conf
+	conf.InitialConnectionReceiveWindow = uint64(params.InitialMaxData)
+	conf.MaxConnectionReceiveWindow = max(conf.MaxConnectionReceiveWindow, conf.InitialConnectionReceiveWindow)
+	conf.MaxIncomingStreams = int64(params.MaxBidiStreamNum)
+	conf.MaxIncomingUniStreams = int64(params.MaxUniStreamNum)
+	conf.EnableDatagrams = params.MaxDatagramFrameSize > 0
+	if params.MaxIdleTimeout > 0 {
+		conf.MaxIdleTimeout = params.MaxIdleTimeout
+	}
+	// the stream receive windows differ per stream type: see newFlowController
+	c.uAdvertisedParams = params
 }
